@@ -235,6 +235,11 @@ def mutations(shape, base_is_var, prefix_empty):
         if strkeys:
             res.append(("refparam-store-str", (strkeys[0],), "STMT:SRefParamStore (%%(base)s) %%(path)s 99",
                         lambda lv, k=strkeys[0]: "setit99(%s%s);" % (lv, php_key(k))))
+        if dense and base_is_var and prefix_empty:
+            # array_splice with a replacement of the same length (seeded C06-17: it wrote into the existing cells)
+            res.append(("splice-same-length", (dense[0],), "AStore 95", lambda lv, k=dense[0]: "array_splice(%s, %d, 1, [95]);" % (lv, k)))
+            if len(dense) >= 2:
+                res.append(("splice-same-length-last", (dense[-1],), "AStore 94", lambda lv, k=dense[-1]: "array_splice(%s, %d, 1, [94]);" % (lv, k)))
         allintvals = all(isinstance(x, int) for _, x in ents)
         if base_is_var and prefix_empty and allintvals and n >= 2:
             res.append(("usort", (), "STMT:SUsort %%(var)s",
@@ -450,6 +455,26 @@ def routes(shape):
                     shape.model_setup("a") + ["SLit \"rows\" (LList [LInt 5; LInt 0])", "SElemStore \"rows\" (KI 1) \"a\"",
                                               "SElemRead \"p\" \"rows\" (KI 1)"],
                     elem_side("rows", 1), var_side("p"), False, ("copy",), wname))
+    # list destructuring into plain locals is a copy route (seeded C06-16: the element value was written straight into
+    # the local's slot): from an array variable, from a call result, nested, and as a foreach target
+    res.append(("destructure", "", shape.php_setup("$a") + " $rows = [5, 0]; $rows[1] = $a; [$q0, $p] = $rows;",
+                shape.model_setup("a") + ["SLit \"rows\" (LList [LInt 5; LInt 0])", "SElemStore \"rows\" (KI 1) \"a\"",
+                                          "SElemRead \"p\" \"rows\" (KI 1)"],
+                elem_side("rows", 1), var_side("p"), False, ("copy", "orig"), None))
+    res.append(("destructure-call-result", "function rowsOf($r) { return $r; }\n",
+                shape.php_setup("$a") + " $rows = [5, 0]; $rows[1] = $a; [$q0, $p] = rowsOf($rows);",
+                shape.model_setup("a") + ["SLit \"rows\" (LList [LInt 5; LInt 0])", "SElemStore \"rows\" (KI 1) \"a\"",
+                                          "SCopy \"r\" \"rows\"", "SCopy \"t\" \"r\"", "SElemRead \"p\" \"t\" (KI 1)"],
+                elem_side("rows", 1), var_side("p"), False, ("copy", "orig"), None))
+    res.append(("destructure-static-result", "function staticRows($v = null) { static $s = null; if ($v !== null) { $s = [5, $v]; } return $s; }\n",
+                shape.php_setup("$a") + " staticRows($a); [$q0, $p] = staticRows(); [$q1, $p2] = staticRows();",
+                shape.model_setup("a") + ["SCopy \"v\" \"a\"", "SListOf \"s\" [\"five\"; \"v\"]", "SCopy \"t\" \"s\"", "SElemRead \"p\" \"t\" (KI 1)",
+                                          "SCopy \"t2\" \"s\"", "SElemRead \"p2\" \"t2\" (KI 1)"],
+                var_side("p2"), var_side("p"), False, ("copy", "orig"), None))
+    res.append(("destructure-foreach", "", shape.php_setup("$a") + " $tbl = [[5, 0]]; $tbl[0][1] = $a; foreach ($tbl as [$q0, $p]) { }",
+                shape.model_setup("a") + ["SLit \"tbl\" (LList [LList [LInt 5; LInt 0]])", "SMut (BVar \"tbl\") [KI 0; KI 1] (AStore 0)",
+                                          "SElemRead \"row\" \"tbl\" (KI 0)", "SElemStore \"row\" (KI 1) \"a\"", "SElemRead \"p\" \"row\" (KI 1)"],
+                var_side("a"), var_side("p"), False, ("copy", "orig"), None))
     # a KEYED literal whose entry is the variable (seeded C06-10: the literal stored the evaluated value as is)
     res.append(("in-keyed-literal", "", shape.php_setup("$a") + " $w = ['z' => 0, 'k' => $a];",
                 shape.model_setup("a") + ["SLit \"w\" (LAssoc [(\"z\", LInt 0)])", "SElemStore \"w\" (KS \"k\") \"a\""],
@@ -509,7 +534,7 @@ def routes(shape):
 
 HISTORY_SHAPES = {"list3-after-refcall", "built-mixed-after-refcall", "list3-after-store", "built-str-after-store", "built-sparse", "assoc9"}
 CORE_ROUTES = {"assign", "param", "return", "prop-read", "prop-store", "clone", "in-array-str", "in-array-append", "from-array",
-               "in-keyed-literal", "static-prop-store", "param-array", "callback-array_map", "foreach-value", "reference"}
+               "in-keyed-literal", "static-prop-store", "param-array", "callback-array_map", "foreach-value", "destructure", "reference"}
 
 
 def build_case(shape, route, mut, side):
@@ -681,6 +706,8 @@ def main(ck):
                     for side in rt[7]:
                         target = rt[5] if side == "copy" else rt[4]
                         for mu in mutations(sh, target.is_var, not target.prefix):
+                            if rt[6] and mu[0].startswith("splice"):
+                                continue      # array_splice on a reference-bound slot: whether it writes through or replaces the slot is not modelled
                             cases.append(build_case(sh, rt, mu, side))
     outs, rc, err = run_impl(binary, cases)
     if len(outs) != len(cases):
